@@ -1031,6 +1031,17 @@ def r02_3(ctx, repo):
             q = _qual_of(arg, env) if arg is not None else None
             where = repo.loc(call, cls, m)
             n_sites[0] += 1
+            if q is not None and '|' in q:
+                # branches disagree: every alternative must be acceptable
+                alts = q.split('|')
+                badq = [a for a in alts if a not in wanted]
+                if not badq:
+                    ctx.ok(rule, where, construct,
+                           '%s receives %s-space values on every branch' % (
+                               what, '/'.join(alts)))
+                    return
+                q = badq[0]
+                what = what + ' (on the branch that skips the conversion)'
             if q in wanted:
                 ctx.ok(rule, where, construct,
                        '%s receives %s-space values' % (what, q))
@@ -1068,7 +1079,35 @@ def r02_3(ctx, repo):
                         env[names[-1]] = q
                     visit(s.body)
                     continue
-                if isinstance(s, (ast.If, ast.While)):
+                if isinstance(s, ast.If):
+                    # a branch that ends in return / raise does not join
+                    def ends(b):
+                        return bool(b) and isinstance(
+                            b[-1], (ast.Return, ast.Raise, ast.Continue))
+                    e0 = dict(env)
+                    visit(s.body)
+                    e1 = dict(env)
+                    env.clear()
+                    env.update(e0)
+                    visit(s.orelse)
+                    e2 = dict(env)
+                    if ends(s.body):
+                        new = e2
+                    elif ends(s.orelse):
+                        new = e1
+                    else:
+                        new = {}
+                        for k in set(e1) | set(e2):
+                            a, b = e1.get(k), e2.get(k)
+                            if a == b:
+                                new[k] = a
+                            elif a is not None and b is not None:
+                                new[k] = '|'.join(sorted(
+                                    set(a.split('|')) | set(b.split('|'))))
+                    env.clear()
+                    env.update(new)
+                    continue
+                if isinstance(s, ast.While):
                     visit(s.body)
                     visit(s.orelse)
                     continue
